@@ -339,6 +339,8 @@ class Ctx:
                 res.detail['worker_died'] = {'status': e.status, 'hang': e.hang, 'stderr_tail': e.stderr[-3000:]}
                 res.labels.add('obs:worker-died')
             return None
+        if res is not None and resp.get('stale'):
+            res.violate('output-aliasing', 'bytes returned by %d Output call(s) changed after a later call in the same process' % resp['stale'])
         if res is not None:
             res.execs += 1
             res.steps = max(res.steps, resp['steps'])
